@@ -383,6 +383,11 @@ def run(ctx):
     if table:
         ctx.guard("R14.2", "phf", lambda: r14_2(ctx, table))
     ctx.guard("R14.3", "c1", lambda: r14_3(ctx))
+    ctx.rule("R14.9", "a reference split across chunks waits for its next character (empty input = Stuck); what is un-consumed at end of input goes into the queue that is then processed")
+    from . import tokrules as _tr
+    for which in ("html", "xml"):
+        ctx.guard("R14.9", "stuck/" + which, lambda which=which: _tr.charref_needs_more_input_means_stuck(ctx, "R14.9", which))
+        ctx.guard("R14.9", "end-queue/" + which, lambda which=which: _tr.end_uses_one_queue(ctx, "R14.9", which))
     for which in ("html", "xml"):
         ctx.guard("R14.4", "numeric/" + which, lambda: r14_4(ctx, which))
         ctx.guard("R14.4", "sticky/" + which, lambda: r14_4b(ctx, which))
